@@ -7,8 +7,8 @@ for d in seeded/*/; do
   extra=""
   # changes that need a history of calls or another entry point are (also) the business of another property's check
   case $id in
-    C02_m3|C02_m6|C02_m8|C02_m9|C02_m11|C03_m5|C03_m12|C04_m11|C10_m11|C15_m7|C18_m7) extra="C07";;
-    C01_m6) extra="C03";;
+    C02_m3|C02_m6|C02_m8|C02_m9|C02_m11|C02_m14|C03_m5|C03_m12|C04_m11|C10_m11|C15_m7|C18_m7) extra="C07";;
+    C01_m6|C01_m14|C17_m13) extra="C03";;
     C08_m7|C08_m10) extra="C15";;
     C05_m12) extra="C11";;
     C17_m12) extra="C03";;
